@@ -25,6 +25,7 @@ fn replay(file: &str) -> ! {
         "handover" => replay_with(&c13::scenario(tier).0, &v),
         "miner-life/c15-rich" => replay_with(&c15::scenario_regime(tier, false).0, &v),
         "miner-life/c15-poor" => replay_with(&c15::scenario_regime(tier, true).0, &v),
+        "c15/fee-grid" => c15::replay_fee_point(&v),
         "miner-life/c15-pledge-only" => replay_with(&c15::scenario_big(tier).0, &v),
         "vesting-component" => replay_with(&c14::scenario_component(tier), &v),
         "withdrawals" => replay_with(&c14::scenario_actor(tier), &v),
